@@ -296,6 +296,31 @@ def run(ctx):
         if o["bonds"] != [int(x) for x in out]:
             brk("bonds differ from the model run with the same paths"); continue
         ctx.count("solver_runs_reproduced_by_model")
+    # ---- one value, many representations of the target sector and the initial guess (dtype, layout, writability): same bonds, inputs untouched
+    import variants, warnings as _w
+    for name, l in [("honey3", eg.honeycomb_lattice(3)), ("vor12", zoo.rebuild(zoo.voronoi(rng, 12))), ("vor20-xy", zoo.rebuild(cut_boundaries(zoo.voronoi(rng, 20))))]:
+        try:
+            F = l.n_plaquettes
+            if F < 2 or not plaquette_graph_connected(l):
+                continue
+            tgt = (1 - 2 * rng.integers(0, 2, size=F)).astype(np.int8)
+            gss = (1 - 2 * rng.integers(0, 2, size=l.n_edges)).astype(np.int8)
+            for variant in ("new", "old"):
+                with _w.catch_warnings():
+                    _w.simplefilter("ignore")
+                    base = solver_fn(variant)(l, tgt, gss)
+                    for argname, arr in (("target", tgt), ("guess", gss)):
+                        for lab, av in variants.of_array(arr):
+                            keep = np.array(av).copy()
+                            out = solver_fn(variant)(l, av if argname == "target" else tgt, av if argname == "guess" else gss)
+                            rep = lambda what: ctx.impl_violation(f"{name} [{variant}]: {what}", dict(case=name, lattice=zoo.lat_to_json(l), variant=variant, target=tgt.tolist(), guess=gss.tolist(), representation=lab))
+                            if not np.array_equal(out, base) or out.dtype != base.dtype:
+                                rep(f"the solver returns different bonds when the same {argname} is passed as {lab}")
+                            if not variants.untouched(lab, keep, av):
+                                rep(f"the solver modified its {argname} argument ({lab})")
+                            ctx.case((name, variant, argname, lab), nontrivial=True)
+        except Exception as ex:
+            ctx.impl_violation(f"{name}: solver raised {type(ex).__name__}: {ex} for another representation of its arguments", dict(case=name, lattice=zoo.lat_to_json(l)))
     budget_stress(ctx, rng, [(9, 9), (10, 10)] if ctx.tier == "quick" else [(9, 9), (10, 10), (11, 11), (12, 12), (9, 13)], 8 if ctx.tier == "quick" else 40)
     low = [(m, e) for m, e in BUDGETS if m is not None and m < e]
     ctx.count("path_queries_with_budget_recorded", len(BUDGETS))
